@@ -61,6 +61,8 @@ type Contract struct {
 	Props        []string // property ids this contract serves
 	Asserts      []*Clause
 	AtReturn     []*Clause // assertions checked at every return, local variables visible
+	Ticks        map[string]string // callee short name -> ghost global incremented at each call
+	ChanEvents   bool              // channel operations update the ghost globals sends/recvs/dones/timeouts
 	Counts       map[string]string // callee short name -> ghost counter of calls
 	Observe      map[string]string // callee short name -> ghost variable holding its last result
 	Before       map[string][]*Clause // callee short name -> assertions checked before each call
@@ -132,7 +134,7 @@ type RecFunc struct {
 	Body   string // SMT body (raw)
 }
 
-var clauseKW = regexp.MustCompile(`^(requires|ensures|modifies|held|acquires|loop|option|props|assert|before|observe|count|atreturn)\b`)
+var clauseKW = regexp.MustCompile(`^(requires|ensures|modifies|held|acquires|loop|option|props|assert|before|observe|count|atreturn|tick)\b`)
 var labelRe = regexp.MustCompile(`^([A-Za-z][A-Za-z0-9_\-]*):\s+(.*)$`)
 
 func parseClause(src string, line int) (*Clause, error) {
@@ -344,6 +346,15 @@ func parseContractFile(path, pkgPath string) (*PkgSpec, error) {
 				return nil, fail(err)
 			}
 			cur.AtReturn = append(cur.AtReturn, c)
+		case strings.HasPrefix(t, "tick "):
+			m := regexp.MustCompile(`^tick\s+([A-Za-z_][A-Za-z0-9_]*)\s+at\s+(\S+)$`).FindStringSubmatch(t)
+			if m == nil {
+				return nil, fail(fmt.Errorf("bad tick clause (tick NAME at CALLEE)"))
+			}
+			if cur.Ticks == nil {
+				cur.Ticks = map[string]string{}
+			}
+			cur.Ticks[m[2]] = m[1]
 		case strings.HasPrefix(t, "count "):
 			m := regexp.MustCompile(`^count\s+([A-Za-z_][A-Za-z0-9_]*)\s*:=\s*(\S+)$`).FindStringSubmatch(t)
 			if m == nil {
@@ -392,6 +403,8 @@ func parseContractFile(path, pkgPath string) (*PkgSpec, error) {
 					cur.Allocates = true
 				case "havoc_loops":
 					cur.LoopsHavocOnly = true
+				case "channel_events":
+					cur.ChanEvents = true
 				case "native_strings":
 					cur.NativeStr = true
 				default:
